@@ -26,6 +26,8 @@ Definition join (dir name : string) : string := if String.eqb dir "/" then "/" +
 Section Discover.
   Variable gm : string -> string -> bool.
   Variable content : string -> list string.   (* lines of an ignore file *)
+  Variable hard : bool.   (* true: VCS metadata directories are never entered, whatever the filter says (the repaired code);
+                             false: they are excluded through the filter only (as pinned) *)
 
   Definition as_ifile (f : dfile) : ifile := (d_in f, content (d_path f)).
 
@@ -70,13 +72,22 @@ Section Discover.
                    mkT (t_visit t) (t_skip t) (add_file (t_filter t) (as_ifile f)) (t_files t ++ [f])
                  else t) dir_files t.
 
+  (* is_vcs_metadata_dir: the last component is one of the VCS metadata directory names *)
+  Fixpoint last_component (s cur : string) : string :=
+    match s with
+    | EmptyString => cur
+    | String c r => if is_sep c then last_component r EmptyString else last_component r (cur ++ String c EmptyString)
+    end.
+  Definition vcs_dir (p : string) : bool :=
+    mem_str (last_component p EmptyString) [".git"; ".hg"; ".bzr"; "_darcs"; ".fossil-settings"; ".svn"; ".pijul"].
+
   (* enumerate the children of a visited directory *)
   Definition enum_children (fs : fsys) (base : string) (dir : string) (t : tourist) : tourist :=
     fold_left (fun t e =>
                  let c := fst e in
                  if must_skip base (t_skip t) c then t else
                  match snd e with
-                 | KDir => if negb (check_dir gm true (t_filter t) c) then do_skip t c
+                 | KDir => if (hard && vcs_dir c) || negb (check_dir gm true (t_filter t) c) then do_skip t c
                            else mkT (t_visit t ++ [c]) (t_skip t) (t_filter t) (t_files t)
                  | _ => t
                  end) (children fs dir) t.
